@@ -1,10 +1,12 @@
 (* C18/Properties.v — the property theorems only.  Each is closed by [exact] of a lemma from Proofs.v (or by
    vm_compute for a concrete witness) and followed by Print Assumptions.
 
-   [repaired] (Model.v) = what /repo HEAD does: all four repairs are committed (88f69f7 mode bits, f4d379f
-   current-manifest restore, b6afef3 ForceRetry keeps the interrupted upgrade's snapshot, ca3a3f9 Rollback refuses
-   a journal at "started").  The correspondence check compares /repo with [repaired] only.  [pre_b6afef3] (first two
-   repairs only) and [pre_88f69f7] (none) are historical and appear only in the `_refuted` witnesses below.
+   [repaired] (Model.v) = /repo with the four committed repairs (88f69f7 mode bits, f4d379f current-manifest
+   restore, b6afef3 ForceRetry keeps the interrupted upgrade's snapshot, ca3a3f9 Rollback refuses a journal at
+   "started") plus the one still proposed (ForceRetry must install every path the kept snapshot covers,
+   fixes/C18_force_retry_same_artifact_set.patch).  [leaves_residue] = /repo at ca3a3f9, i.e. without the last one
+   (recorded finding forceretry-subset-leaves-residue; `C18_success_leaves_no_residue_refuted`).  The correspondence
+   check compares /repo with these two.  [pre_b6afef3] and [pre_88f69f7] are historical (`_refuted` witnesses only).
    Reachable state = [exec repaired (init_world c f) ops] for an arbitrary
    installed tree f (symlinks, directories, anything), version c and history ops (applies with any tarball,
    options incl. ForceRetry, fault set and crash label; rollbacks; operator edits; obstacle removal).
@@ -20,14 +22,17 @@ Local Open Scope N_scope.
 Notation reach c f ops := (exec repaired (init_world c f) ops).
 
 (* --- all-or-nothing -------------------------------------------------------------------- *)
-(* An apply that reports success has every artifact at the new content and mode, the journal at "completed"
-   and current-manifest at the new version — whatever faults were injected. *)
+(* An apply that reports success has every artifact at the new content and mode, the journal at "completed" and
+   current-manifest at the new version — whatever faults were injected — and leaves NO RESIDUE: every baseline path
+   (every path an attempt of this upgrade episode may have replaced; for a ForceRetry these are the interrupted
+   upgrade's artifacts) is an artifact of this tarball, hence at the new version as well. *)
 Theorem C18_no_mixed_success :
   forall c f ops T Q F w', apply repaired T Q F (reach c f ops) = (w', ROk) ->
   (forall a, In a (t_arts T) -> exists mm, new_mode (a_mode a) = Some mm /\
                                   fs w' (a_path a) = Some (Reg (a_content a) mm)) /\
-  cur w' = t_to T /\ option_map j_phase (jr w') = Some PCompleted.
-Proof. exact (fun c f ops T Q F w' => no_mixed_success repaired T Q F _ w' eq_refl (proj1 (reachable_IJ c f ops))). Qed.
+  cur w' = t_to T /\ option_map j_phase (jr w') = Some PCompleted /\
+  (forall p f0, In (p, f0) (fst (baseline_of (reach c f ops) T)) -> exists a, In a (t_arts T) /\ a_path a = p).
+Proof. exact (fun c f ops T Q F w' => no_mixed_success repaired T Q F _ w' fixedv_repaired (proj1 (reachable_IJ c f ops))). Qed.
 Print Assumptions C18_no_mixed_success.
 
 (* An apply that reports "failed, auto-rollback succeeded" leaves every baseline path exactly (kind, bytes,
@@ -101,6 +106,37 @@ Theorem C18_rollback_can_succeed :
 Proof. exact reachable_rollback_succeeds. Qed.
 Print Assumptions C18_rollback_can_succeed.
 
+(* the liveness premise read off the disk: a journal that exists and is past "started" *)
+Theorem C18_post_snapshot_observable :
+  forall c f ops j, let w := reach c f ops in
+  jr w = Some j -> phase_started (j_phase j) = false -> exists base gi, g_base w = Some (true, base, gi).
+Proof. exact post_snapshot_observable. Qed.
+Print Assumptions C18_post_snapshot_observable.
+
+(* an apply that stops with the journal still at "started" (death before or right after the snapshot, snapshot or
+   saveCurrentManifest error) has touched neither the tree nor current-manifest *)
+Theorem C18_stopped_at_started_untouched :
+  forall c f ops T Q F w' r, let w := reach c f ops in
+  apply repaired T Q F w = (w', r) -> option_map j_phase (jr w') = Some PStarted ->
+  (forall p, fs w' p = fs w p) /\ cur w' = cur w.
+Proof. exact stopped_at_started_untouched. Qed.
+Print Assumptions C18_stopped_at_started_untouched.
+
+(* End to end, without ghost state: an upgrade starts at w0 on a box that is not mid-upgrade.  Whatever follows
+   without a NEW upgrade episode starting (every later apply is refused or is a ForceRetry over the interrupted
+   upgrade; failures, deaths, rollbacks, edits, clears are free), every operation that reports a rollback has put
+   every artifact path of the tarball and current-manifest back to what they were in w0. *)
+Theorem C18_end_to_end_restore :
+  forall c f ops0 T Q F ops o w' r m,
+  let w0 := reach c f ops0 in
+  let w1 := fst (step repaired w0 (OpApply T Q F)) in
+  resume w0 = false -> admits T Q w0 = true ->
+  same_episode repaired w1 (ops ++ [o]) ->
+  step repaired (exec repaired w1 ops) o = (w', (r, m)) -> reports_rollback o r ->
+  (forall a, In a (t_arts T) -> fs w' (a_path a) = fs w0 (a_path a)) /\ cur w' = cur w0.
+Proof. exact end_to_end. Qed.
+Print Assumptions C18_end_to_end_restore.
+
 (* --- admission before mutation --------------------------------------------------------- *)
 (* bad signature, digest mismatch, unsafe / non-regular member or unparsable manifest, malformed or wrong
    predecessor: the model world is unchanged (artifacts, journal, snapshots, current-manifest; the staging
@@ -152,10 +188,35 @@ Definition swap_and_rollback_fail : faults :=   (* swap of artifact #1 fails, th
 Definition dies_after_commit : faults :=
   {| f_fail := []; f_crash := Some 35; f_ha := true; f_hr := true; f_ob := []; f_rob := [] |}.
 Definition dies_before_manifest_saved : faults :=
-  {| f_fail := []; f_crash := Some 36; f_ha := true; f_hr := true; f_ob := []; f_rob := [] |}.
+  {| f_fail := [36]; f_crash := None; f_ha := true; f_hr := true; f_ob := []; f_rob := [] |}.
 Definition interrupted_then_forced : list op :=
   [OpApply (tar_ex 2 PrevNone) no_opts swap_and_rollback_fail;    (* leaves artifact 0 new, artifact 1 old *)
    OpApply (tar_ex 2 PrevNone) force health_fails].               (* ForceRetry, health fails, auto-rollback "succeeds" *)
+
+(* /repo at ca3a3f9 (recorded finding, fix proposed): after the interrupted upgrade to version 2 replaced artifact 0,
+   a ForceRetry with a version-5 tarball that installs only artifact 1 is admitted, completes and reports success;
+   artifact 0 keeps the version-2 bytes on a box whose current-manifest says 5 *)
+Definition only_art1 : tarball :=
+  {| t_to := 5; t_prev := PrevNone; t_sig_ok := true; t_members_ok := true; t_digest_ok := true; t_hook_ok := true;
+     t_arts := [ {| a_path := 1; a_content := 31; a_mode := MEmpty; a_vpp := false |} ] |}.
+Definition start_fails_twice : faults :=   (* daemon start fails, the auto-rollback cannot stop the daemon *)
+  {| f_fail := [8; 12]; f_crash := None; f_ha := true; f_hr := true; f_ob := []; f_rob := [] |}.
+Theorem C18_success_leaves_no_residue_refuted :
+  exists w1 w' m, exec leaves_residue (init_world 1 fs_ex) [OpApply (tar_ex 2 PrevNone) no_opts start_fails_twice] = w1 /\
+    step leaves_residue w1 (OpApply only_art1 force no_faults) = (w', (ROk, m)) /\ m = MonMixed /\ cur w' = 5 /\
+    ofile_eqb (fs w' 0) (Some (Reg 20 493)) = true /\ ofile_eqb (fs w' 1) (Some (Reg 31 420)) = true.
+Proof.
+  do 3 eexists. split; [reflexivity|]. split; [vm_compute; reflexivity|]. split; [reflexivity|].
+  split; [vm_compute; reflexivity|]. split; vm_compute; reflexivity.
+Qed.
+Print Assumptions C18_success_leaves_no_residue_refuted.
+
+(* the repaired model refuses that tarball and changes nothing *)
+Example C18_nonvacuous_residue_refused :
+  exists w1, reach 1 fs_ex [OpApply (tar_ex 2 PrevNone) no_opts start_fails_twice] = w1 /\ resume w1 = true /\
+             admits only_art1 force w1 = true /\ snd (apply repaired only_art1 force no_faults w1) = RErr.
+Proof. eexists. split; [reflexivity|]. split; [vm_compute; reflexivity|]. split; vm_compute; reflexivity. Qed.
+Print Assumptions C18_nonvacuous_residue_refused.
 
 (* historical, fixed in b6afef3: the ForceRetry apply re-snapshotted the mixed tree; its auto-rollback reported
    success with artifact 0 still at the new bytes — a mixture against the baseline (tree before attempt 1) *)
@@ -165,10 +226,10 @@ Theorem C18_forceretry_rebase_refuted :
 Proof. do 2 eexists. split; [vm_compute; reflexivity|]. split; vm_compute; reflexivity. Qed.
 Print Assumptions C18_forceretry_rebase_refuted.
 
-(* historical, fixed in ca3a3f9: the process dies after Snapshot() and before saveCurrentManifest; Rollback accepted
+(* historical, fixed in ca3a3f9: saveCurrentManifest fails (or the process dies) after Snapshot(); Rollback accepted
    the journal at "started", found no saved manifest and deleted current-manifest.yaml (cur = NOVER), reporting success *)
 Theorem C18_rollback_without_snapshot_refuted :
-  exists w1 w', apply pre_b6afef3 (tar_ex 2 PrevNone) no_opts dies_before_manifest_saved (init_world 1 fs_ex) = (w1, RCrash) /\
+  exists w1 w', apply pre_b6afef3 (tar_ex 2 PrevNone) no_opts dies_before_manifest_saved (init_world 1 fs_ex) = (w1, RErr) /\
                 rollback_flow pre_b6afef3 no_faults w1 = (w', RbOk) /\ cur w' = NOVER /\ ver_restored w' = MonMixed.
 Proof. do 2 eexists. split; [vm_compute; reflexivity|]. split; [vm_compute; reflexivity|]. split; vm_compute; reflexivity. Qed.
 Print Assumptions C18_rollback_without_snapshot_refuted.
@@ -234,11 +295,11 @@ Proof.
 Qed.
 Print Assumptions C18_nonvacuous_death_after_commit.
 
-(* death between Snapshot and saveCurrentManifest: the repaired Rollback refuses, nothing changes; a
+(* saveCurrentManifest fails after Snapshot (= what a death between the two leaves): the repaired Rollback refuses, nothing changes; a
    ForceRetry then upgrades normally *)
 Example C18_nonvacuous_death_before_manifest_saved :
   exists w1 w2,
-    apply repaired (tar_ex 2 PrevNone) no_opts dies_before_manifest_saved (reach 1 fs_ex []) = (w1, RCrash) /\
+    apply repaired (tar_ex 2 PrevNone) no_opts dies_before_manifest_saved (reach 1 fs_ex []) = (w1, RErr) /\
     rollback_flow repaired no_faults w1 = (w1, RbErr) /\ cur w1 = 1 /\
     apply repaired (tar_ex 2 PrevNone) force no_faults w1 = (w2, ROk).
 Proof.
